@@ -302,6 +302,10 @@ def program(draw, profile=None):
                 a = {"kind": "aux", "name": aname, "needs": [] if info["mode"] == "plain" else draw(needs(env, 1, 2))}
                 info["used"] = True
                 f["acts"].insert(draw(st.integers(0, len(f["acts"]))), a)
+                if prof.get("aux_share") and info["mode"] == "plain" and len(fr["frames"]) > 1 and draw(st.booleans()):
+                    # the same original listed by a second frame of the owner (ownership guard must arbitrate)
+                    g = draw(st.sampled_from([x for x in fr["frames"] if x is not f]))
+                    g["acts"].insert(draw(st.integers(0, len(g["acts"]))), {"kind": "aux", "name": aname, "needs": []})
     if prof.get("aux_completes"):
         # make auxiliaries walk through their frames and complete after a few ticks
         for fr in framers:
